@@ -2396,3 +2396,68 @@ Q(name="e2_retransmit_all_for_0rtt_iteration", props=["C17", "C01"], func=r"stre
   pre=r0_pre, post=r0_post,
   bounds="one iteration of the per-stream loop that runs when a Retry has discarded every 0-RTT packet, from an ARBITRARY stream state in which nothing is acknowledged (unacked_len = offset, unsent <= offset, FIN unacknowledged): afterwards the whole written prefix is scheduled again (unsent = 0), a finished stream will send its FIN again - on its own when it has no data - and a stream with anything to send is in the pending queue",
   replay=("streams_retransmit_all_0rtt_native", lambda m: [dict(len_=0, partial=0), dict(len_=10, partial=0), dict(len_=200, partial=1), dict(len_=0, partial=1)]))
+
+
+# ------------------------------------------------------------------ C15: when path validation times out the connection ends up on a path with no challenge outstanding (slice)
+def pvt_post(c, p):
+    st = p.p.state
+    if p.p.outcome not in ("stop", "return"):
+        return "true"
+    path = "*_1.%d" % c.field("connection/mod.rs", "Connection", "path")
+    chal = _path_field(c, "challenge")
+    pend = _path_field(c, "challenge_pending")
+    org = c.ex.origin(st, path)
+    restored = org != path
+    if restored and not re.match(r"^_\d+(@Some\.0\.1)?$", str(org)):
+        return "false"
+    if restored and not p.called(r"set_loss_detection_timer$"):
+        return "false"
+    # whichever path the connection is on afterwards: its challenge has lapsed with the timer
+    return and_(eq(c.ex.read_key(st, chal + "#discr", I64).t, bv(0)), not_(c.ex.read_key(st, pend, BOOL).t))
+
+
+Q(name="e2_path_validation_timeout_slice", props=["C15"], func=r"connection/mod\.rs:\d+:1: \d+:16>::handle_timeout$",
+  src="connection/mod.rs", within=r"^    pub fn handle_timeout\(", start_line=r"if let Some\(\(_, prev\)\) = self\.prev_path\.take\(\) \{",
+  end_line=[r"(?#loophead)for &timer in &Timer::VALUES \{", r"Timer::Pacing => trace!"],
+  allowed_panics=r".", check_stop=True,
+  functions=["Connection::handle_timeout (slice: the PathValidation arm from the point where the previous path is taken back)"], pre=lambda c: "true", post=pvt_post,
+  bounds="the PathValidation arm from an ARBITRARY state (any current path, any or no previous path): afterwards the path the connection is on - the previous one when there was one - has no challenge outstanding or pending (a stale challenge on the restored path would keep migrate() from remembering it the next time), and restoring a path re-arms loss detection",
+  replay=("conn_path_validation_timeout_native", lambda m: [dict(rounds=1), dict(rounds=2)]))
+
+
+# ------------------------------------------------------------------ C11: RecvStream::received_reset - a stopped stream is closed; the reset is reported once, and frees the stream
+def rsr_post(c, p):
+    st = p.p.state
+    if p.p.outcome != "return":
+        return "true"
+    err = eq(c.ex.read_key(st, "_0#discr", I64).t, bv(1))
+    some = and_(not_(err), eq(c.ex.read_key(st, "_0@Ok.0#discr", I64).t, bv(1)))
+    ent = p.called(r"rustc_entry$|HashMap.*::entry$")
+    opn = p.called(r"StreamRecv::as_open_recv$")
+    rc = p.called(r"Recv::reset_code$")
+    rm = p.called(r"RawTable.*::remove$|remove_entry$")
+    fr = p.called(r"StreamsState::stream_recv_freed$")
+    if len(ent) != 1 or len(opn) > 1 or len(rc) > 1 or len(rm) > 1 or len(fr) > 1 or bool(rm) != bool(fr):
+        return "false"
+    vacant = eq(c.ex.read_key(st, ent[0][2] + "#discr", I64).t, bv(1))                 # RustcEntry { Occupied, Vacant }
+    out = [or_(not_(vacant), err)]                                   # a stream that is gone reports ClosedStream
+    if opn:
+        r = opn[0][2]
+        is_open = eq(c.ex.read_key(st, r + "#discr", I64).t, bv(1))
+        stopped = c.inp("*%s@Some.0.%d" % (r, c.field("connection/streams/recv.rs", "Recv", "stopped")), BOOL)
+        out.append(or_(not_(and_(is_open, stopped)), err))          # a stream the application stopped reports ClosedStream
+    if rm:
+        # the terminal outcome is handed out together with the stream's removal - exactly once
+        if not rc or c.ex.origin(st, "_0@Ok.0@Some.0") not in (rc[0][2] + "@Some.0",):
+            return "false"
+        out.append(some)
+    else:
+        out.append(not_(some))
+    return and_(*out)
+
+
+Q(name="e2_recvstream_received_reset", props=["C11"], func=r"streams/mod\.rs:\d+:1: \d+:20>::received_reset$",
+  allowed_panics=r"must have recv on reset|expect_failed",
+  functions=["RecvStream::received_reset (HashMap entry / remove inlined from hashbrown)"], pre=lambda c: "true", post=rsr_post,
+  bounds="every state of the receive map and of the stream: a stream that is no longer in the map, or that the application has stopped, reports ClosedStream; Ok(Some(code)) is returned only together with the removal of the stream (so it is observed once) and carries the code Recv::reset_code reported; in every other case the stream stays and Ok(None) is returned; as_open_recv / reset_code / stream_recv_freed opaque",
+  replay=("streams_recvstream_received_reset_native", lambda m: [dict(mode=0), dict(mode=1), dict(mode=2)]))
